@@ -30,7 +30,7 @@ ADDR_SPECIAL = ['user@localhost', 'user@foo.localhost', 'x@example.com', 'x@exam
                 'x@1.0.0.127.in-addr.arpa', 'x@0.ip6.arpa', 'A <a@foo.example>', 'x@y@example.com', 'x@example.com@real.org', 'x@.test', 'x@..local']
 ADDR_DOTLESS = ['a@b', 'user@host', 'root@LOCALHOSTX', 'x@local', 'x@in-addr', 'x@arpa', 'x@ip6', 'x@examplecom', 'x@testx', 'x@', '@', '@x', 'a@b@c']
 ADDR_NONE = ['', 'Jan Kowalski', 'not an address', '<>', 'Jan <>', 'jan(at)kowalski.pl', 'foo.org', ';', ',', 'a b c', '<', '"', '(', 'x <y',
-             '=?utf-8?q?x?=', 'Jan <jan kowalski.pl>']
+             '=?utf-8?q?x?=', 'Jan <jan kowalski.pl>', '(' * 1000, '(' * 700 + 'a@b.c', 'a@b.c ' + '(' * 600 + ')' * 600, '(' * 40 + 'x' + ')' * 40 + ' <a@b.c>']
 URLS = ['https://bugs.foo.org/', 'http://foo.org/bugs?x=1', 'mailto:bugs@foo.org', 'ftp://x', 'x:', 'a+b-c.d:rest', 'HTTP://FOO', 'http://[foo', 'http://[::1]/',
         'http://[::1', 'https://[v1.x]/', '//foo.org/', '/bugs', 'foo.org/bugs', 'www.foo.org', ':x', '1http://x', 'h ttp://x', 'http//x', 'ht_tp://x',
         'https://foo.org/@x', 'https://x@y/', 'git+ssh://x', 'urn:isbn:1', 'javascript:alert(1)', 'http://]', 'http://[', 'x://[', 'a://b]c', 'a://[b]c[', 'http://[foo]bar/']
